@@ -15,6 +15,13 @@
    part of C10_Spec.P and are checked on the implementation by the differential / fault /
    raw-byte streams only.
 
+   INTER-FIELD rules (C10_Interfield): the validity rules that relate two fields and that the OpenAPI
+   schema cannot express - nameSelector.matchNames x a fieldSelector requirement on metadata.name (any
+   operator, any position), includeSnapshotsFrom x the kubernetes binding names, label selector operator
+   x values (written out in the model; label keys / values stay with the oracle) - are clauses of
+   C10_Spec.interfield_valid and of must_reject; the loader rejects a schema-valid document with fine
+   single fields iff a clause is broken.
+
    SEVERAL loads in one process (C10_Session: the package-level SchemasCache threaded through
    the loads of a session, the cached schema used for validation as in LoadAndValidate): the
    loader is a function of the document - C10_history_independent, C10_any_earlier_history,
@@ -23,7 +30,7 @@
    implementation the session streams load every document in the session and alone in a fresh
    process. *)
 From Coq Require Import String.
-From Verif Require Import Common Json C10_Model C10_Spec C10_Proofs C10_Session C10_SessionProofs.
+From Verif Require Import Common Json C10_Model C10_Spec C10_Proofs C10_Session C10_SessionProofs C10_Interfield.
 
 (* every parsed document is either rejected or loaded (trivial in Gallina, stated for the record) *)
 Theorem C10_total : forall co lo du wo doc,
@@ -125,6 +132,74 @@ Proof.
   - exists c. split; [reflexivity|]. now destruct H1 as [H1 _].
   - exists c0. split; [reflexivity|]. now destruct H4 as [H4 _].
 Qed.
+
+(* ---- validity rules that relate TWO fields (C10_Interfield; the OpenAPI schema cannot express them) ---- *)
+
+(* nameSelector.matchNames next to a fieldSelector requirement on metadata.name is rejected ... *)
+Theorem C10_rejects_name_and_field_selector : forall co lo du wo doc,
+  name_field_clash doc = true -> load co lo du wo doc = Rejected.
+Proof. exact rejects_name_field_clash. Qed.
+Print Assumptions C10_rejects_name_and_field_selector.
+
+(* ... whatever the operator of that requirement (nothing is assumed about it), wherever it stands in
+   matchExpressions, whichever kubernetes binding of the document it is, however many names *)
+Theorem C10_rejects_name_and_field_selector_any_operator : forall co lo du wo doc b ns fs n names pre e post,
+  is_v1 doc = true -> In b (get_arr (bs "kubernetes") doc) ->
+  jget (bs "nameSelector") b = Some ns -> get_arr (bs "matchNames") ns = n :: names ->
+  jget (bs "fieldSelector") b = Some fs -> get_arr (bs "matchExpressions") fs = pre ++ e :: post ->
+  get_str (bs "field") e = bs "metadata.name" ->
+  load co lo du wo doc = Rejected.
+Proof. exact rejects_name_field_any_operator. Qed.
+Print Assumptions C10_rejects_name_and_field_selector_any_operator.
+
+(* a label selector requirement whose operator does not fit its values (In / NotIn without values,
+   Exists / DoesNotExist with values) is rejected at every place a v1 binding can declare a label
+   selector - for every oracle of label keys and values *)
+Theorem C10_rejects_label_operator_values_misfit : forall co lo du wo doc,
+  bad_label_opvals doc = true -> load co lo du wo doc = Rejected.
+Proof. exact rejects_bad_label_opvals. Qed.
+Print Assumptions C10_rejects_label_operator_values_misfit.
+
+(* a schema-valid v1 document whose single fields are fine is rejected IFF some inter-field clause
+   (name x field, include x binding names, operator x values) is broken ... *)
+Theorem C10_load_rejects_iff_interfield_clause_broken : forall co lo du wo doc,
+  is_v1 doc = true -> check schema_v1 doc = true -> single_field_ok co lo du wo doc = true ->
+  (load co lo du wo doc = Rejected <-> interfield_valid doc = false).
+Proof. exact load_rejects_iff_clause_broken. Qed.
+Print Assumptions C10_load_rejects_iff_interfield_clause_broken.
+
+(* ... and otherwise loaded with exactly the declared bindings *)
+Theorem C10_loads_when_interfield_clauses_hold : forall co lo du wo doc,
+  is_v1 doc = true -> check schema_v1 doc = true -> single_field_ok co lo du wo doc = true ->
+  interfield_valid doc = true ->
+  exists c, load co lo du wo doc = Loaded c /\ loaded_ok doc (cfg_json c) = true.
+Proof. exact loads_when_clauses_hold. Qed.
+Print Assumptions C10_loads_when_interfield_clauses_hold.
+
+(* non-vacuity: nameSelector [app] + a second requirement `metadata.name <op> other`, for each of the five
+   operator spellings, meets the hypotheses (v1, schema-valid, single fields fine), breaks the clause and is
+   rejected; the neighbour `metadata.namespace != other` meets them, keeps every clause and loads with the
+   declared names; `In` without values in a validating binding's namespace.labelSelector is rejected although
+   the oracle accepts every key and value *)
+Example C10_interfield_hyp_met :
+  (forall op, In op [bs "="; bs "=="; bs "Equals"; bs "!="; bs "NotEquals"] ->
+     is_v1 (doc_names_and_field (bs "metadata.name") op) = true
+     /\ check schema_v1 (doc_names_and_field (bs "metadata.name") op) = true
+     /\ single_field_ok all_ok_cron all_ok_sel dur_3s all_ok_sel (doc_names_and_field (bs "metadata.name") op) = true
+     /\ name_field_clash (doc_names_and_field (bs "metadata.name") op) = true
+     /\ interfield_valid (doc_names_and_field (bs "metadata.name") op) = false
+     /\ load all_ok_cron all_ok_sel dur_3s all_ok_sel (doc_names_and_field (bs "metadata.name") op) = Rejected)
+  /\ (is_v1 (doc_names_and_field (bs "metadata.namespace") (bs "!=")) = true
+      /\ check schema_v1 (doc_names_and_field (bs "metadata.namespace") (bs "!=")) = true
+      /\ single_field_ok all_ok_cron all_ok_sel dur_3s all_ok_sel (doc_names_and_field (bs "metadata.namespace") (bs "!=")) = true
+      /\ interfield_valid (doc_names_and_field (bs "metadata.namespace") (bs "!=")) = true
+      /\ match load all_ok_cron all_ok_sel dur_3s all_ok_sel (doc_names_and_field (bs "metadata.namespace") (bs "!=")) with
+         | Loaded c => map k_names (c_kubes c) = [Some [bs "app"]] | Rejected => False end)
+  /\ (is_v1 doc_in_without_values = true /\ check schema_v1 doc_in_without_values = true
+      /\ single_field_ok all_ok_cron all_ok_sel dur_3s all_ok_sel doc_in_without_values = true
+      /\ bad_label_opvals doc_in_without_values = true
+      /\ load all_ok_cron all_ok_sel dur_3s all_ok_sel doc_in_without_values = Rejected).
+Proof. exact interfield_examples. Qed.
 
 (* ---- several loads in one process ---- *)
 
